@@ -53,3 +53,16 @@ Print Assumptions shutdown_expires_all.
 Theorem dns_timeout_is_17s : dns_timeout = 17 * 1000000000.
 Proof. exact eq_refl. Qed.
 Print Assumptions dns_timeout_is_17s.
+
+(* "the configured timeout" is the one given to every service: each NewShadowsocksService call of
+   the server gets WithNatTimeout(s.natTimeout) — services and legacy ports alike (regenerated from
+   main.go on every run) *)
+From OSS Require Gen.Consts.
+From Coq Require String.
+Import String.StringSyntax.
+Delimit Scope string_scope with string.
+Theorem configured_timeout_reaches_every_service :
+  Gen.Consts.nat_timeout_args = ["s.natTimeout"; "s.natTimeout"]%string /\
+  List.length Gen.Consts.nat_timeout_args = Gen.Consts.new_service_calls.
+Proof. split; reflexivity. Qed.
+Print Assumptions configured_timeout_reaches_every_service.
